@@ -525,8 +525,70 @@ func minterBlockTerms(rep *Report, c minterCfg, cid int, times []time.Time, obs 
 			prevInfl = nil
 		}
 		checkInflationZero(rep, c, cid, bi_, times[bi_], seq, mo[8], mo[9], k10 && !times[bi_].After(st.LastMintBlockTime))
+		if !(k10 && !times[bi_].After(st.LastMintBlockTime)) {
+			checkInflationValue(rep, c, cid, bi_, times[bi_], seq, mo[8], mo[9], mo[7])
+		}
 	}
 	return
+}
+
+// C19: the reported value itself against the configured schedule, in exact rationals: inside a linear period
+// amount / period * year / supply, inside step k of an exponential period amount * multiplier^k / step * year / supply
+// (tolerance: the 18-digit rounding of each of the k multiplications propagated through the formula, three units of the last digit, 10^-12 relative)
+func checkInflationValue(rep *Report, c minterCfg, cid, step int, now time.Time, seq int64, class, infl, supply *big.Int) {
+	g, start, ok := periodOf(c, seq)
+	if !ok || class.Sign() <= 0 || g.kind == 0 || supply.Sign() <= 0 || now.Before(start) {
+		return
+	}
+	if g.end != nil && !now.Before(*g.end) {
+		return
+	}
+	year := new(big.Rat).SetInt64(int64(365 * 24 * time.Hour))
+	var rate *big.Rat
+	amtErr := new(big.Rat) // absolute error of the step amount from the 18-digit rounding of each multiplication
+	switch g.kind {
+	case 1:
+		if g.end == nil {
+			return
+		}
+		period := g.end.Sub(start)
+		if period <= 0 {
+			return
+		}
+		rate = new(big.Rat).SetFrac(g.amt, bi(int64(period)))
+	default:
+		if g.step <= 0 {
+			return
+		}
+		k := int64(now.Sub(start)) / int64(g.step)
+		if k > 4000 {
+			return
+		}
+		amt := new(big.Rat).SetInt(g.amt)
+		m := decRat(g.mult)
+		grow := big.NewRat(1, 1)
+		for i := int64(0); i < k; i++ {
+			amt.Mul(amt, m)
+			if m.Cmp(big.NewRat(1, 1)) > 0 {
+				grow.Mul(grow, m)
+			}
+		}
+		amtErr.Mul(grow, big.NewRat(k+1, 1000000000000000000))
+		amtErr.Quo(amtErr, new(big.Rat).SetInt64(int64(g.step)))
+		amtErr.Mul(amtErr, year)
+		amtErr.Quo(amtErr, new(big.Rat).SetInt(supply))
+		rate = amt.Quo(amt, new(big.Rat).SetInt64(int64(g.step)))
+	}
+	rate.Mul(rate, year)
+	rate.Quo(rate, new(big.Rat).SetInt(supply))
+	got := new(big.Rat).SetFrac(infl, new(big.Int).Exp(bi(10), bi(18), nil))
+	diff := new(big.Rat).Sub(got, rate)
+	diff.Abs(diff)
+	tol := new(big.Rat).Mul(rate, big.NewRat(1, 1000000000000))
+	tol.Add(tol, big.NewRat(3, 1000000000000000000))
+	tol.Add(tol, amtErr)
+	rep.Eval("C19.reported_rate_is_schedule_rate_over_supply", diff.Cmp(tol) <= 0, cid, step,
+		fmt.Sprintf("reported %s, schedule rate over supply %s (period %d kind %d supply %v)", got.FloatString(18), rate.FloatString(18), seq, g.kind, supply))
 }
 
 // runMinterUpdateLeg: a governance update in the middle of a history, in one context (one process, as on a node): the blocks
